@@ -36,7 +36,7 @@ def tensor_objects(sym, tier):
         for sig in sigs:
             for n in range(nch):
                 for drop in (None, [0]):
-                    for var in GT.variants(r, 0 if tier == 'quick' else 1):
+                    for var in GT.variants(r, 1):
                         out.append(({'s': sig, 'm': [i % ms for i in range(r)], 'n': n, 'drop': drop, 'var': var}, []))
     base3 = {'s': [1, -1, 1], 'm': [0, ms - 1, 0], 'n': nch - 1, 'drop': None, 'var': ['fresh']}
     base4 = {'s': [1, 1, -1, -1], 'm': [i % ms for i in range(4)], 'n': nch - 1, 'drop': None, 'var': ['lazy', [3, 2, 1, 0]]}
